@@ -1,7 +1,7 @@
 #!/usr/bin/env python3
 """Runs the pinned suite on /repo (guard off) and compares with BASELINE.json stable_pass."""
 import json, subprocess, sys, os
-env = dict(os.environ, GOFLAGS="-mod=mod", GOPROXY="off", GOSUMDB="off", GOTOOLCHAIN="local")
+env = dict(os.environ, TZ="Asia/Shanghai", GOFLAGS="-mod=mod", GOPROXY="off", GOSUMDB="off", GOTOOLCHAIN="local")
 repo = sys.argv[1] if len(sys.argv) > 1 else "/repo"
 p = subprocess.run(["go", "test", "-mod=mod", "-json", "-vet=off", "-count=1", "-timeout", "25m", "./..."], cwd=repo, env=env, capture_output=True, text=True)
 passed = set()
